@@ -294,12 +294,12 @@ pub struct GenType {
     pub schema: &'static str,
     /// compiled with keep_unknown_fields
     pub keep: bool,
-    pub dec_mem: fn(Proto, &mut Bytes, bool) -> crate::eval::GenMem,
-    pub dec_async: for<'a> fn(Proto, &'a mut crate::eval::PosStream, bool) -> AsyncDec<'a>,
+    pub dec_mem: fn(Proto, &mut Bytes, bool, bool) -> crate::eval::GenMem,
+    pub dec_async: for<'a> fn(Proto, &'a mut crate::eval::PosStream, bool, bool) -> AsyncDec<'a>,
 }
 
-fn dec_async_t<'a, T: Message + PartialEq + std::fmt::Debug + 'static>(proto: Proto, s: &'a mut crate::eval::PosStream, want_trailer: bool) -> AsyncDec<'a> {
-    Box::pin(crate::eval::gen_dec_async::<T>(proto, s, want_trailer))
+fn dec_async_t<'a, T: Message + PartialEq + std::fmt::Debug + 'static>(proto: Proto, s: &'a mut crate::eval::PosStream, want_trailer: bool, call: bool) -> AsyncDec<'a> {
+    Box::pin(crate::eval::gen_dec_async::<T>(proto, s, want_trailer, call))
 }
 
 macro_rules! gen_types {
